@@ -18,6 +18,7 @@
 namespace drv {
 SlotCfg cfg[NSLOT + 1];
 std::unique_ptr<Mock> mocks[NMOCK];
+std::unique_ptr<MockN> nmock;
 std::unique_ptr<trompeloeil::sequence> seqs[NSEQ + 1];
 std::unique_ptr<trompeloeil::expectation> exps[NSLOT + 1];
 std::unique_ptr<DW> objs[NOBJ + 1];
@@ -110,6 +111,7 @@ static std::string base(std::string const& f) { auto p = f.rfind('/'); return p 
 
 static int do_call(int m, int f, int a, int b)
 {
+  if (m == NM_ID) return nmock->f(a);
   switch (f) {
   case 1: return mocks[m]->f(a);
   case 2: return mocks[m]->f(std::string("s") + std::to_string(a));
@@ -156,12 +158,12 @@ static void run_op(std::string const& line)
   auto A = [&](size_t i) { return i < a.size() ? a[i] : 0; };
   int acc = 1, ret = 0, q1 = -1, q2 = -1; std::string thr; bool skip = false;
   try {
-    if (op == "mock") { if (okm(A(0)) && !mocks[A(0)]) mocks[A(0)] = std::make_unique<Mock>(); else skip = true; }
+    if (op == "mock") { if (A(0) == NM_ID && !nmock) nmock = std::make_unique<MockN>(); else if (okm(A(0)) && !mocks[A(0)]) mocks[A(0)] = std::make_unique<Mock>(); else skip = true; }
     else if (op == "seq") { if (okq(A(0)) && !seqs[A(0)]) seqs[A(0)] = std::make_unique<trompeloeil::sequence>(); else skip = true; }
     else if (op == "obj") { if (oko(A(0)) && !objs[A(0)]) objs[A(0)] = std::make_unique<DW>(); else skip = true; }
     else if (op == "expect") {
       int s = A(0);
-      if (!oksl(s) || exps[s] || !okm(A(2)) || !mocks[A(2)]) skip = true;
+      if (!oksl(s) || exps[s] || !((A(2) == NM_ID && nmock) || (okm(A(2)) && mocks[A(2)]))) skip = true;
       else {
         SlotCfg& c = cfg[s]; c = SlotCfg{}; c.mock = A(2);
         c.p[0] = {A(3), A(4)}; c.p[1] = {A(5), A(6)};
@@ -171,13 +173,13 @@ static void run_op(std::string const& line)
         if (!make_expectation(s, A(1))) skip = true;
       }
     }
-    else if (op == "call") { if (okm(A(0)) && mocks[A(0)]) ret = do_call(A(0), A(1), A(2), A(3)); else skip = true; }
+    else if (op == "call") { if ((A(0) == NM_ID && nmock && A(1) == 1) || (okm(A(0)) && mocks[A(0)])) ret = do_call(A(0), A(1), A(2), A(3)); else skip = true; }
     else if (op == "release") { if (oksl(A(0)) && exps[A(0)]) exps[A(0)].reset(); else skip = true; }
     else if (op == "query") { if (oksl(A(0)) && exps[A(0)]) { q1 = exps[A(0)]->is_satisfied(); q2 = exps[A(0)]->is_saturated(); } else skip = true; }
     else if (op == "mquery") { if (okk(A(0)) && mons[A(0)]) { q1 = mons[A(0)]->is_satisfied(); q2 = mons[A(0)]->is_saturated(); } else skip = true; }
     else if (op == "mqueryx") { if (okk(A(0)) && mons[A(0)]) { (void)mons[A(0)]->is_satisfied(); (void)mons[A(0)]->is_saturated(); } else skip = true; }
     else if (op == "iscompleted") { if (okq(A(0)) && seqs[A(0)]) q1 = seqs[A(0)]->is_completed(); else skip = true; }
-    else if (op == "dmock") { if (okm(A(0)) && mocks[A(0)]) mocks[A(0)].reset(); else skip = true; }
+    else if (op == "dmock") { if (A(0) == NM_ID && nmock) nmock.reset(); else if (okm(A(0)) && mocks[A(0)]) mocks[A(0)].reset(); else skip = true; }
     else if (op == "watch") {
       int k = A(0), o = A(1), nq = A(2);
       if (!okk(k) || mons[k] || !oko(o) || !objs[o]) skip = true;
@@ -264,6 +266,7 @@ static int run_segment(Seg const& sg, unsigned seed)
   for (int k = 1; k <= NMON; ++k) mons[k].reset();
   for (int o = 1; o <= NOBJ; ++o) objs[o].reset();
   for (int m = 0; m < NMOCK; ++m) mocks[m].reset();
+  nmock.reset();
   for (int q = 1; q <= NSEQ; ++q) seqs[q].reset();
   std::fputs("{\"e\":\"fin\"}\n", out);
   std::fflush(out);
